@@ -68,8 +68,8 @@ Worker(i) == /\ pend # NoBatch /\ pend[i] # <<>>
              /\ UNCHANGED goal
 
 BatchEnd == /\ pend # NoBatch /\ \A i \in Nib : pend[i] = <<>>
-            /\ pend' = NoBatch
-            /\ UNCHANGED <<kv, tree, goal>>
+            /\ pend' = NoBatch /\ goal' = EmptyKV
+            /\ UNCHANGED <<kv, tree>>
 
 Next == \/ \E k \in Keys : (\E v \in Vals : Put(k, v)) \/ Del(k)
         \/ \E ops \in BatchSet : BatchSeq(ops) \/ BatchPar(ops)
